@@ -65,7 +65,7 @@ func guarded(f func()) (status string) {
 	select {
 	case s := <-done:
 		return s
-	case <-time.After(10 * time.Second):
+	case <-time.After(30 * time.Second):
 		return "timeout"
 	}
 }
@@ -792,7 +792,7 @@ func mergeStream(n int) {
 		if chance(0.0006) {
 			// a NEW object value nested thousands of levels (half the decoder's limit and more) with null
 			// members at the bottom: they are pruned at every depth the decoder accepts
-			d := int(pick64(4990, 5001, 5002, 5200, 7000, 9990))
+			d := int(pick64(4990, 5001, 5002, 5200, 6000, 7000))
 			patch = []byte(`{"new":` + strings.Repeat(`{"a":`, d) + `{"b":null,"c":1}` + strings.Repeat("}", d) + `}`)
 			doc = []byte(pick(`{}`, `{"new":null}`, `{"new":7}`, `[1]`))
 		}
